@@ -47,9 +47,9 @@ func TestVerifProcRun(t *testing.T) {
 		w.keys = append(w.keys, vkey(r))
 	}
 	w.own = vkey(r)
-	n := 12
+	n := 36
 	if verifThorough() {
-		n = 120
+		n = 240
 	}
 	vWithSupervisor(t, func(root context.Context) {
 		for id := 0; id < n; id++ {
@@ -104,6 +104,23 @@ func vRunOne(t *testing.T, root context.Context, w *vWorld, id int) *vRunRow {
 	}
 	gs := w.set(members, uint32(r.below(4)))
 	row.Shape = fmt.Sprintf("n=%d own=%d", nset, ownPos)
+	// every third run rotates the guardian set half way through: the new set shares the own key (if any) and the first member only,
+	// has another size and the next index; gossip from its other members follows
+	rotate := r.chance(1, 3)
+	members2 := []int{}
+	for i, m := range members {
+		if m == -1 || i == 0 {
+			members2 = append(members2, m)
+		}
+	}
+	for i := 0; i < 1+r.below(4); i++ {
+		members2 = append(members2, 40+i)
+	}
+	gs2 := w.set(members2, gs.Index+1)
+	setByIndex := map[uint32]*common.GuardianSet{gs.Index: gs, gs2.Index: gs2}
+	if rotate {
+		row.Shape += fmt.Sprintf(" rotate->%d", len(members2))
+	}
 	dr := &vDriver{own: w.own} // only for verifiesAgainst
 	feed := func(f func()) bool {
 		c := make(chan struct{})
@@ -153,7 +170,7 @@ func vRunOne(t *testing.T, root context.Context, w *vWorld, id int) *vRunRow {
 			bag = append(bag, evt{kind: "inbound", mi: mi})
 		}
 		// (a message whose quorum VAA arrives from a peer first may legitimately not be signed again: no expectation then)
-		if cnt+own >= q && own == 1 && !inb {
+		if cnt+own >= q && own == 1 && !inb && !rotate {
 			expect[hex.EncodeToString(digestOfMsg(k, 0))] = true
 		}
 	}
@@ -162,9 +179,25 @@ func vRunOne(t *testing.T, root context.Context, w *vWorld, id int) *vRunRow {
 		bag[i], bag[j] = bag[j], bag[i]
 	}
 	ok := feed(func() { setC <- gs })
-	for _, e := range bag {
+	for bi, e := range bag {
 		if !ok {
 			break
+		}
+		if rotate && bi == len(bag)/2 {
+			ok = feed(func() { setC <- gs2 })
+			// members of the new set gossip their signatures for every message (they are not applicable to entries snapshotted earlier)
+			for _, k := range msgs {
+				for ps, m := range members2 {
+					if m >= 40 && ok {
+						ob := w.obsBy(m, digestOfMsg(k, 0), k.TxHash[:])
+						_ = ps
+						ok = feed(func() { obsvC <- ob })
+					}
+				}
+			}
+			if !ok {
+				break
+			}
 		}
 		k := msgs[e.mi]
 		dg := digestOfMsg(k, 0)
@@ -201,8 +234,8 @@ func vRunOne(t *testing.T, root context.Context, w *vWorld, id int) *vRunRow {
 				if x, is := g.Message.(*gossipv1.GossipMessage_SignedVaaWithQuorum); is {
 					row.Sent++
 					v, okp := vparse(x.SignedVaaWithQuorum.Vaa)
-					if !okp || !dr.verifiesAgainst(v, gs) {
-						row.Mon = append(row.Mon, "C01: VAA broadcast by the Run loop does not carry a valid quorum of the set the node learned")
+					if !okp || !dr.verifiesAgainst(v, setByIndex[v.GuardianSetIndex]) {
+						row.Mon = append(row.Mon, "C01: VAA broadcast by the Run loop does not carry a valid quorum of the guardian set it names")
 					} else {
 						published[hex.EncodeToString(vkeccak(vkeccak(v.SerializeBody())))]++
 					}
@@ -235,8 +268,8 @@ func vRunOne(t *testing.T, root context.Context, w *vWorld, id int) *vRunRow {
 		if vb, err := d.GetSignedVAABytes(*db.VaaIDFromVAA(v)); err == nil {
 			row.Stored++
 			sv, okp := vparse(vb)
-			if !okp || !dr.verifiesAgainst(sv, gs) {
-				row.Mon = append(row.Mon, "C01: VAA stored by the Run loop does not carry a valid quorum of the set the node learned")
+			if !okp || !(dr.verifiesAgainst(sv, setByIndex[sv.GuardianSetIndex]) || dr.verifiesAgainst(sv, gs) || (rotate && dr.verifiesAgainst(sv, gs2))) {
+				row.Mon = append(row.Mon, "C01: VAA stored by the Run loop does not carry a valid quorum of a set the node learned")
 			}
 		}
 	}
